@@ -258,7 +258,7 @@ def cases(draw):
 
 
 def jobs(tier, seed):
-    n, shards = (3200, 8) if tier == "quick" else (40000, 16)
+    n, shards = (3200, 8) if tier == "quick" else (160000, 16)
     return [{"name": f"hyp-{i}", "kind": "hyp", "seed": seed * 1000 + i, "n": n // shards} for i in range(shards)]
 
 
